@@ -206,10 +206,10 @@ ADDENDA = {
     "C14": "Also REP owing a reply while further recv calls are abandoned, and a burst of 600 messages drained by polling each recv future once (dropping it if not finished) within one poll of the task.",
     "C15": "Also a client reconnecting under its identity, an idle worker leaving while requests are in flight, pipes that yield cooperatively, and clients that stop reading for a while.",
     "C16": "Also FIN-only faults, a connection replaced by a new one under the same identity (old one ended-unnoticed / parked / half-open), SUB subscription updates after the fault, and a child-process leg: a bound socket of each type serving 60 (quick) / 600 (thorough) connect-exchange-disconnect cycles over tcp and ipc with /proc/self/fd and alive-task counts compared before/after; a live peer with a message waiting when the end is noticed; reconnect after the old end was noticed (EOF / error / reset); a send blocked on a silent peer while another peer is being registered and the first one fails (executor must not deadlock).",
-    "C17": "Also a peer stalled with data queued, two live connections announcing one identity, a connect() abandoned mid-handshake, and re-binding the same TCP port after close/drop (peers still open / closed).",
+    "C17": "Also a peer stalled with data queued, two live connections announcing one identity, a connect() abandoned mid-handshake, re-binding the same TCP port after close/drop (peers still open / closed), SUB with a joiner parked in the subscription announcement, and close/drop of an IPC listener after an accept-error episode (child process).",
     "C18": "Also unbind of another host spelling carrying a live listener's port, 1..12 blocking connects racing an unbind (none may be admitted afterwards), a silent client, unbind immediately followed by bind of the same ipc endpoint, and a child-process leg (4 types x tcp4/tcp6/ipc) in which accept() itself fails for ~120 ms (descriptor table full; failures counted through the monitor) and must recover.",
     "C19": "Also random IPv4/IPv6 values rendered in every textual form (zero-padded, upper case, '::' anywhere, dotted-quad tails up to 45 characters), bracketed or not; every string also through the TryIntoEndpoint conversion used by bind()/connect(); white-space-padded variants.",
-    "C20": "Also the behaviour 'fin' (orderly half-close, connection kept open), 40 stalled / 24 mixed simultaneous bad clients, and the accept-error child of C18 with 12 silent clients connected (5 types x tcp4/ipc).",
+    "C20": "Also the behaviour 'fin' (orderly half-close, connection kept open), 40 stalled / 24 mixed simultaneous bad clients, the accept-error child of C18 with 12 silent clients connected (5 types x tcp4/ipc), and a monitor overflow (1300 failed handshakes while the monitor is not read, then further failures and a good client must still be reported).",
 }
 for _pid, _t in ADDENDA.items():
     PROPS[_pid]["rule"] += " " + _t
